@@ -1095,6 +1095,27 @@ func minI(a, b int64) int64 {
 
 // sliceElementValues: values stored into a slice value (variadic literal, append chain, or make + indexed stores).
 func sliceElementValues(v ssa.Value) []ssa.Value {
+	return sliceElementValuesDepth(v, 0)
+}
+
+func sliceElementValuesDepth(v ssa.Value, depth int) []ssa.Value {
+	// a slice built by a same-package helper: the elements of what the helper returns
+	if cv, isCall := v.(*ssa.Call); isCall && depth < 2 {
+		if h := cv.Common().StaticCallee(); h != nil && cv.Parent() != nil {
+			hb := bodyOf(h)
+			if hb != nil && len(hb.Blocks) > 0 && fnPkgPath(hb) != "" && fnPkgPath(hb) == fnPkgPath(cv.Parent()) {
+				var out []ssa.Value
+				for _, r := range Returns(hb) {
+					if len(r.Results) >= 1 {
+						out = append(out, sliceElementValuesDepth(ReturnResult(r, 0), depth+1)...)
+					}
+				}
+				if len(out) > 0 {
+					return out
+				}
+			}
+		}
+	}
 	if ops := variadicOperands(v); len(ops) > 0 {
 		return ops
 	}
